@@ -255,10 +255,10 @@ def main(tier):
     budget = 60 if tier == 'quick' else 900
     res = gabs.run_all(rep, run_instance, instances(tier), budget, 16 * (100 if tier == 'quick' else 900))
     from symx.common import run_instances
-    rb = 40 if tier == 'quick' else 400
+    rb = 30 if tier == 'quick' else 400
     real = [('realmap', lay, fam, ne, mut, rb) for lay, mut in (('oneway4', ('del_node', 'D')), ('oneway4', ('purge',)),
                                                                 ('oneway3', ('add_node', 'D', (0.0, 3.0), [('C', 'D')])), ('line3', ('del_node', 'C')))
-            for fam, ne in (('simple_n', True), ('dist', True), ('simple', False))]
+            for fam, ne in (('simple_n', True), ('dist', True)) + ((('simple', False),) if tier == 'thorough' else ())]
     # linked parallel edges declared for one direction of a two-way road only (real InMemMap.edges_nbrto)
     real += [('realmap', 'par_link', fam, ne, ('none',), rb) for fam, ne in (('dist', False), ('simple', True))]
     res = list(res) + list(run_instances(run_instance, real))
